@@ -208,7 +208,16 @@ def gen_events(ctx):
 
 def _worker(job):
     cases = job
-    res = runmodel.run_both_many([dict(doc=c['doc'], prelude=PRELUDE, default_state=c.get('default')) for c in cases])
+    try:
+        res = runmodel.run_both_many([dict(doc=c['doc'], prelude=PRELUDE, default_state=c.get('default')) for c in cases])
+    except Exception:      # noqa
+        # one of the (well formed) doctests cannot even be parsed: find it and report it as the failing input
+        res = []
+        for c in cases:
+            try:
+                res += runmodel.run_both_many([dict(doc=c['doc'], prelude=PRELUDE, default_state=c.get('default'))])
+            except Exception as e:      # noqa
+                res.append(({'end': 'not parsed: %s: %s' % (type(e).__name__, str(e)[:120]), 'failed': None, 'trace': None, 'failure': None, 'failed_part': None}, None, [], None))
     out = []
     for c, (impl, model, df, ex) in zip(cases, res):
         problem = None
